@@ -36,12 +36,18 @@ def run_case(case):
         plan = {"seed": env["seed"], "rules": env["rules"]}
         if env["mode"] == "run":
             world = core.fresh_world(files, sub="m%d" % i)
+            if env.get("dirty"):
+                pipeline.place_dirty(world, env, pipeline.module_artefacts(files, entry))
+                st_probes["stale_artefacts_present"] = 1
             p = core.run_cmd(os.path.join(world, os.path.dirname(entry)), ["run", os.path.basename(entry), "-q"], plan=plan, gc=env["gc"])
             procs.append(p)
             rules.append(env["rules"])
             final = p
         else:
             world = core.fresh_world(files, sub="m%d" % i)
+            if env.get("dirty"):
+                pipeline.place_dirty(world, env, pipeline.module_artefacts(files, entry))
+                st_probes["stale_artefacts_present"] = 1
             cwd = os.path.join(world, os.path.dirname(entry))
             c = core.run_cmd(cwd, ["compile", os.path.basename(entry), "--quick"], plan=plan)
             procs.append(c)
@@ -54,6 +60,18 @@ def run_case(case):
                 procs.append(p)
                 rules.append(env["rules"])
                 final = p
+        if len(files) > 1:
+            opens = [e for e in final["events"] if e["call"] == "open" and e["path"].endswith(".mmm") and (e["req"] & 3) == 0]
+            writes = [e for e in final["events"] if e["call"] == "write" and e["path"].endswith(".mmm")]
+            if opens and any(e["call"] == "write" and e["path"] == "<stdout>" for e in final["events"][:final["events"].index(opens[-1])]):
+                st_probes["module_loaded_from_disk_after_output_started"] = 1
+            per = {}
+            for e in opens:
+                per[e["path"]] = per.get(e["path"], 0) + 1
+            if any(v > 1 for v in per.values()):
+                st_probes["bytecode_file_opened_more_than_once"] = 1
+            if final["args"][0] == "execute" and writes:
+                st_probes["execute_wrote_bytecode"] = 1
         if verdict is None:
             out = core.text(final["out"])
             msg = None
